@@ -83,6 +83,44 @@ MUTANTS = [
                 if seen > 6:
                     break
                 yield _match"""),
+    dict(id="c08-getitem-async-never-completes-for-slices", prop="C08", file="jsonpath/env.py",
+         old="""        if hasattr(obj, "__getitem_async__"):
+            return await obj.__getitem_async__(key)
+        return getitem(obj, key)""",
+         new="""        if hasattr(obj, "__getitem_async__"):
+            if isinstance(key, slice) and key.step == -1:
+                import asyncio
+
+                await asyncio.get_running_loop().create_future()  # lost wake-up
+            return await obj.__getitem_async__(key)
+        return getitem(obj, key)"""),
+    dict(id="c08-async-filter-busy-retry", prop="C08", file="jsonpath/selectors.py",
+         old="""                    try:
+                        result = await expr.evaluate_async(context)
+                    except JSONPathTypeError as err:
+                        if not err.token:
+                            err.token = self.token
+                        raise
+
+                    if result:
+                        _match = self.env.match_class(
+                            filter_context=match.filter_context(),
+                            obj=val,""",
+         new="""                    try:
+                        result = await expr.evaluate_async(context)
+                        while result and key == "a":
+                            import asyncio
+
+                            await asyncio.sleep(0)  # waits for a flag nobody sets
+                    except JSONPathTypeError as err:
+                        if not err.token:
+                            err.token = self.token
+                        raise
+
+                    if result:
+                        _match = self.env.match_class(
+                            filter_context=match.filter_context(),
+                            obj=val,"""),
     # ------------------------------------------------------------------ C09
     dict(id="c09-selfpath-not-volatile", prop="C09", file="jsonpath/filter.py",
          old="""    def __init__(self, path: JSONPath) -> None:
